@@ -464,8 +464,17 @@ def base(label):
     return label.split("/")[0]
 
 
+# monitors about HOW a message was refused: one report per (state, symptom), whatever the kind
+_KINDLESS = {"illegal_type_wrong_refusal", "refusal_released_keys", "refusal_changed_state",
+             "refusal_changed_projection"}
+
+
 def _sig(w, monitor, label, **kw):
-    s = {"monitor": monitor, "role": w.role, "ref_state": w.ref.state, "kind": label}
+    """Structural signature: monitor, victim role, reference state, message kind (omitted for
+    the refusal-quality monitors so that one root cause gives one report), symptom fields."""
+    s = {"monitor": monitor, "role": w.role, "ref_state": w.ref.state}
+    if monitor not in _KINDLESS:
+        s["kind"] = label
     s.update(kw)
     return s
 
@@ -787,7 +796,7 @@ def part_start_row(ctx):
     return cells
 
 
-def part_table(ctx, workers):
+def table_jobs():
     jobs = []
     for tv, states in LEGAL_PREFIXES.items():
         variant = tv.split("+")[0]
@@ -797,7 +806,10 @@ def part_table(ctx, workers):
                 if label == "CH/badbinder" and variant != "s_psk":
                     continue
                 jobs.append((variant, tuple(prefix) + (label,), "each"))
-    res = core.pmap(_job, jobs, workers=workers, chunksize=8)
+    return jobs
+
+
+def table_eval(ctx, jobs, res):
     outcomes = {}
     impl_states = set()
     accept_cells = 0
@@ -824,7 +836,7 @@ def part_table(ctx, workers):
     missing = set(tls.State.__members__) - impl_states
     if missing or set(REF_TO_IMPL.values()) != set(tls.State.__members__):
         raise core.HarnessError("tls.State members not covered by the table: %r" % sorted(missing))
-    if len(outcomes) < 3 or accept_cells < 10:
+    if (len(outcomes) < 3 or accept_cells < 10) and not (ctx.violations or ctx.known_hits):
         raise core.HarnessError("vacuous table: outcomes %r" % outcomes)
     ctx.part("table", evaluations=len(jobs), transitions=len(jobs),
              states=sum(len(s) for s in LEGAL_PREFIXES.values()),
@@ -870,7 +882,7 @@ def part_closure(ctx, workers):
         ctx.part("closure." + variant, states=res.states, transitions=res.transitions,
                  evaluations=res.transitions, max_depth=res.max_depth, closure=res.closed,
                  outcomes=len(res.outcomes), distinct_nontrivial=res.states)
-        if len(res.outcomes) < 3:
+        if len(res.outcomes) < 3 and not res.violations:
             raise core.HarnessError("closure.%s: vacuous (%r)" % (variant, res.outcomes))
         if not res.closed:
             ctx.cap("closure.%s not closed (%s)" % (variant, res.capped))
@@ -928,19 +940,51 @@ SEQ_WORLDS = {
 }
 
 
-def part_sequences(ctx, workers, mult, maxlen, modes):
+def sequence_jobs(plan, extra_slice=None):
+    """plan = [(mode, multiplicity, max length)]; extra_slice = (mult, maxlen, k, n): quick tier
+    adds the k-th of n slices of the thorough space (chosen by VERIF_SEED, mode "each").
+    Returns {world name: (jobs, info)}."""
+    out = {}
     for name, (variant, hello, letters, alts, legal) in SEQ_WORLDS.items():
-        base_seqs = multiset_orderings(letters, mult, maxlen)
-        seqs = [s for b in base_seqs for s in strengths(b, alts)]
-        jobs = [(variant, (hello,) + s, m) for m in modes for s in seqs]
-        res = core.pmap(_job, jobs, workers=workers, chunksize=64)
+        jobs = []
+        base_seqs = []
+        seqs = []
+        for mode, mult, maxlen in plan:
+            b_ = multiset_orderings(letters, mult, maxlen)
+            s_ = [s for b in b_ for s in strengths(b, alts)]
+            if len(b_) > len(base_seqs):
+                base_seqs, seqs = b_, s_
+            jobs += [(variant, (hello,) + s, mode) for s in s_]
+        n_extra = 0
+        if extra_slice is not None:
+            emult, elen, k, n = extra_slice
+            have = set(j[1] for j in jobs if j[2] == "each")
+            pool = [s for b in multiset_orderings(letters, emult, elen) for s in strengths(b, alts)]
+            for i, s in enumerate(pool):
+                if i % n == k and (hello,) + s not in have:
+                    jobs.append((variant, (hello,) + s, "each"))
+                    n_extra += 1
+        modes = sorted(set(m for m, _, _ in plan))
+        out[name] = (jobs, dict(base_seqs=len(base_seqs), seqs=len(seqs), n_extra=n_extra, modes=modes))
+    return out
+
+
+def sequences_eval(ctx, all_jobs, all_res):
+    for name, (variant, hello, letters, alts, legal) in SEQ_WORLDS.items():
+        jobs, info = all_jobs[name]
+        res = all_res[name]
+        n_extra, modes = info["n_extra"], info["modes"]
         finished_clean = set()
         finished_after_refusal = 0
         outcomes = set()
         finals = set()
+        # one-call delivery is derived behaviour: its violations are only reported when the
+        # message-by-message runs of this world are clean (same root cause otherwise)
+        each_bad = any(r["violation"] is not None for (v, h, mode), r in res if mode == "each")
         for (v, hist, mode), r in res:
             if r["violation"] is not None:
-                report(ctx, "sequences", v, hist, mode, r["violation"], world=name)
+                if mode == "each" or not each_bad:
+                    report(ctx, "sequences", v, hist, mode, r["violation"], world=name)
                 continue
             finals.add(r["canon"][0])
             outcomes.update(r["outcomes"])
@@ -963,10 +1007,11 @@ def part_sequences(ctx, workers, mult, maxlen, modes):
                            "flight": list(s)},
                           "legal flight %r did not complete in world %s" % (list(s), name),
                           {"part": "sequences", "variant": variant, "history": [hello] + list(s), "mode": "each"})
-        if (len(finals) < 2 or len(outcomes) < 3) and not ctx.violations:
+        if (len(finals) < 2 or len(outcomes) < 3) and not (ctx.violations or ctx.known_hits):
             raise core.HarnessError("sequences.%s vacuous: final states %r outcomes %r" % (name, finals, outcomes))
         ctx.part("sequences." + name, evaluations=len(jobs), transitions=sum(len(j[1]) for j in jobs),
-                 base_sequences=len(base_seqs), with_strengths=len(seqs), modes=list(modes),
+                 base_sequences=info["base_seqs"], with_strengths=info["seqs"], modes=list(modes),
+                 seed_slice_extra=n_extra,
                  flights_finishing_without_alert=len(finished_clean),
                  runs_finishing_after_refused_messages=finished_after_refusal,
                  distinct_final_states=len(finals), distinct_nontrivial=len(outcomes))
@@ -997,16 +1042,34 @@ def run(ctx):
     client_ticket()
     server_ticket()
     if ctx.tier == "quick":
-        mult, maxlen, modes = 1, 5, ("each", "concat")
+        plan = [("each", 1, 5), ("concat", 1, 5)]
+        extra = (2, 6, ctx.seed % 16, 16)     # a seed-chosen 1/16 of the thorough space on top
     else:
-        mult, maxlen, modes = 2, 6, ("each", "concat")
+        plan = [("each", 2, 7), ("concat", 2, 6)]
+        extra = None
+    mult = max(p[1] for p in plan)
+    maxlen = max(p[2] for p in plan)
+    modes = [p[0] for p in plan]
+    # all replay jobs of the table and of the sequence worlds go through ONE fork pool
+    tjobs = table_jobs() if "table" in parts else []
+    sjobs = sequence_jobs(plan, extra) if "sequences" in parts else {}
+    flat = list(tjobs)
+    for name in sjobs:
+        flat += sjobs[name][0]
+    res = core.pmap(_job, flat, workers=w, chunksize=32)
     if "table" in parts:
         part_start_row(ctx)
-        part_table(ctx, w)
+        table_eval(ctx, tjobs, res[: len(tjobs)])
     if "closure" in parts:
         part_closure(ctx, w)
     if "sequences" in parts:
-        part_sequences(ctx, w, mult, maxlen, modes)
+        pos = len(tjobs)
+        sres = {}
+        for name in sjobs:
+            n = len(sjobs[name][0])
+            sres[name] = res[pos: pos + n]
+            pos += n
+        sequences_eval(ctx, sjobs, sres)
     ctx.cov["rule"] = (
         "real tls.Context driven by a key-holding reftls adversary (valid MAC/signature/binder over "
         "the transcript as accepted): (1) every State x every handshake message kind, (2) BFS with all "
@@ -1016,6 +1079,8 @@ def run(ctx):
         "next-message table + key-release ledger" % (mult, maxlen))
     ctx.cov["exhaustive"] = not ctx.caps_hit
     ctx.cov["bounds"] = {"multiplicity": mult, "max_flight_length": maxlen, "modes": list(modes),
+                         "sequence_plan": [list(p) for p in plan],
+                         "quick_seed_slice": list(extra) if extra else None,
                          "client_kinds": len(CLIENT_VICTIM_KINDS), "server_kinds": len(SERVER_VICTIM_KINDS),
                          "variants": sorted(LEGAL_PREFIXES)}
     ctx.assumptions += [
